@@ -1,12 +1,34 @@
+_FP = [
+    # widen the window between taking tw.mu and flushing the handler's response
+    dict(file="api/handler/timeouthandler.go", anchor="dst := w.Header()", name="c02FpFlush", where="before"),
+    # ... between taking tw.mu and writing the timeout response
+    dict(file="api/handler/timeouthandler.go", anchor="httpx.ErrorCtx(r.Context(), w, ctx.Err()", name="c02FpTimeout", where="before"),
+    # ... and inside timeoutWriter.Write while it holds tw.mu
+    dict(file="api/handler/timeouthandler.go", anchor="if tw.timedOut {", name="c02FpWrite", where="before", occurrence=1),
+]
+
 SPEC = dict(
     level="exploration",
-    technique="runtime monitor (draft)",
-    level_text="draft",
-    level_note="draft",
+    technique="runtime monitor: scripted handlers (header/status/write/block-on-ctx/park/panic steps) behind the real REST chain (engine.bindRoutes, httptest recorder), behind real loopback servers (api.NewServer+Start, net/http client), behind the composed unary interceptors and behind a real gRPC server (rpc/internal.NewServer+Start); the oracle derives the only legal response(s) from the script; gated handlers for deterministic verdicts, either-outcome for racing ones; Go race detector on the REST chain and the RPC interceptors; thorough tier adds gofail sleeps inside timeoutHandler/timeoutWriter",
+    level_text="Every response is compared with the response the script owes: fast handler (route timeout 60 s or none) => exactly its status, headers set before the first write, and body; gated late handler (blocks on ctx.Done(), parked until the client holds its response) => 503 'Request Timeout' (499 when the client context is cancelled) without any handler header/byte, late writes refused with ErrHandlerTimeout, client's view unchanged afterwards; racing handler (writes straddle a 20-100 ms deadline) => complete handler response or timeout response, never a mixture; panic => 500 empty / committed status, route still serves; MaxConns parked handlers => next k requests 503 without running, gauge <= MaxConns, tokens returned; Content-Length > MaxBytes <=> 413 without running. Loopback servers: same classes over real connections, every request gets a response (no EOF), next request on the same connection intact. RPC: handler result / DeadlineExceeded / Canceled / Internal. Quick ~4k REST scenarios + ~3k RPC calls. Held = no deviation on the executions observed, not a proof.",
+    level_note="Trusts: Go runtime, net/http, httptest recorder, grpc-go, the 60-line script model. The deadline is real time (context.WithTimeout, no seam): verdicts rest on gates and sequence stamps, never on elapsed time; 'fast' cases use a 60 s route timeout; a live-server request without any response is a violation only if it reproduces in all 5 attempts (http.Server write deadline is real time). Breaker/shedder rejections (503 without entering the handler on a route whose breaker has seen failures) are C01's subject and tolerated; workloads keep every breaker below its threshold (<= 5 failures per route/method). Headers set after the first write, the body of a 500/413/MaxConns-503, and MaxConns across different routes (the latch is per route) are not asserted. The MaxConns gauge only counts handlers that finish before their deadline. 'Late writes are refused with ErrHandlerTimeout' is the mechanism the property anchors name (timeoutWriter refuses after timedOut); it has no client-visible effect by itself.",
     design_ref="DESIGN.md §3 C02",
-    assumptions=[],
+    assumptions=[
+        "a 503 with empty body whose handler never ran, on a route/method whose breaker has recorded >=500 results, may be a circuit-breaker rejection (property C01) and is not judged",
+        "MaxConns is enforced per route (one latch per bound route, as in upstream go-zero); no assertion across routes",
+        "handler statuses are taken from codes that allow a body (no 1xx/204/304); handlers do not set Content-Length themselves and late handlers do not read the request body",
+        "CpuThreshold=0 (adaptive shedder off), no JWT/signature middlewares: only the chain members named by the property are active besides tracing/log/prometheus/metric/breaker/gunzip pass-throughs",
+        "live servers: a request that gets no response is reported only when 5 of 5 gated attempts fail (3 parallel + 2 sequential); isolated misses are recorded as notes",
+        "client-cancel (499 / Canceled) is observed with the recorder / direct interceptor call only: a real client that cancelled cannot see the server's answer",
+        "scheduling stalls > 10 s of a single goroutine while the rest of the process runs do not occur (patience before a gate is opened for a hung client)",
+    ],
     runs=[
-        dict(pkg="./api", run="^TestVerifC02(Chain|Server)$", timeout=240, timeout_thorough=1500),
-        dict(pkg="./api", run="^TestVerifC02Race", race=True, timeout=300, timeout_thorough=2400),
+        dict(pkg="./api", run="^TestVerifC02(Chain|Server)$", timeout=300, timeout_thorough=1800),
+        dict(pkg="./api", run="^TestVerifC02RaceChain$", race=True, timeout=300, timeout_thorough=2400),
+        dict(pkg="./rpc/internal/serverinterceptors", run="^TestVerifC02RPCChain$", race=True, timeout=300, timeout_thorough=1800),
+        dict(pkg="./rpc/internal", run="^TestVerifC02RPCServer$", timeout=300, timeout_thorough=1800),
+        dict(pkg="./api", run="^TestVerifC02RaceChain$", race=True, thorough_only=True, timeout_thorough=2400,
+             env_thorough={"C02_BATCH_BASE": "200000", "C02_BATCHES": "120"},
+             failpoints=_FP, failpoint_terms="c02FpFlush=25.0%sleep(3);c02FpTimeout=25.0%sleep(3);c02FpWrite=10.0%sleep(1)"),
     ],
 )
